@@ -279,6 +279,7 @@ class SyncSource(object):
             if r >= 2:
                 self.shorts += 1
                 h.ctx.probe('short_read')
+                h.ctx.ch.note_fired('source_short_read')
         out = data[self.off:self.off + k]
         self.off += k
         self.pieces += 1
@@ -945,6 +946,7 @@ class Hist(object):
                 got = b''.join(sink.parts)
                 want = cur.data[cur.pos:cur.pos + len(got)]
                 ctx.probe('sink_failed')
+                ctx.ch.note_fired('sink_write_raises')
                 if got != want:
                     self.violate('conservation', 'pipe handed %r to the destination at cursor %d where the '
                                  'flat stream has %r' % (got[:40], cur.pos, want[:40]), op=kind,
